@@ -5,7 +5,8 @@ open Pox Pox.Proto Pox.Packet Pox.Actions
 
 /-! Line-protocol driver for C12.
 
-  {"var":{"d7":b,"d8":b,"c121":b,"c122":b}, "ports":[{"no":n,"hw":hex,"config":n,"state":n},…], "bufs":n (max_buffers, default 4096), "ops":[op,…]}
+  {"var":{"d7":b,"d8":b,"c121":b,"c122":b}, "ports":[{"no":n,"hw":hex,"config":n,"state":n},…], "bufs":n (max_buffers, default 4096),
+   "miss":n (the constructor's miss_send_len, default 128), "ops":[op,…]}
     op = {"op":"portmod","port":n,"hw":hex,"config":n,"mask":n} | {"op":"setconfig","flags":n,"miss":n}
        | {"op":"flow","in_port":n|null,"acts":[act,…]} | {"op":"pktout","in_port":n,"acts":[act,…],"data":hex}
        | {"op":"stats","port":n|null} | {"op":"features"}   (read-outs: [{"k":"stats","ports":[…]}] / [{"k":"features","ports":[…]}])
@@ -126,7 +127,8 @@ def handle (j : J) : Except String J := do
     pure ({ no := ← p.nat "no", hw := ← p.bytes "hw", config := ← p.nat "config", state := ← p.nat "state" } : Port)
   let ops ← (← j.array "ops").mapM dopOfJ
   let bufs := (← j.optNat "bufs").getD 4096
-  let (sw, outs, specs, exc) := loop var { ports := ports, stats := ports.map fun p => { no := p.no }, bufFree := bufs } ops [] []
+  let miss := (← j.optNat "miss").getD 128
+  let (sw, outs, specs, exc) := loop var { ports := ports, stats := ports.map fun p => { no := p.no }, bufFree := bufs, missLen := miss } ops [] []
   pure (J.mk [("outs", J.arr outs), ("exc", match exc with | some e => J.str e | none => J.null),
               ("ports", J.arr (sw.ports.map (portJ sw))), ("spec", J.arr specs)])
 
